@@ -17,7 +17,10 @@ def q_of(c, qn):
     return (c % qn, (c // qn) % qn, (c // (qn * qn)) % qn, c // (qn ** 3))
 
 
-MAPS = [(1, 0), (0.5, -3.0), (2.0 ** 20, 0.0)]
+MAPS = [(1, 0), (0.5, -3.0), (2.0 ** 20, 0.0),
+        # decimal coordinates (0.1, 0.2, 0.7 ...): monotone maps keep every comparison of the lattice, so the abstract answer is unchanged,
+        # but sums and differences of such coordinates round - an overlap test done arithmetically instead of by comparison shows here
+        (0.1, 0.0), (1.0 / 3.0, 0.7)]
 # identifiers are whatever the caller uses: positions from 1, from 0 (enumerate - 0 is falsy), strings, tuples, sparse numbers
 ID_SCHEMES = [lambda i: i + 1, lambda i: i, lambda i: "path%d" % i, lambda i: (i // 3, i % 3), lambda i: 10 * i + 7]
 
@@ -97,10 +100,14 @@ def record(rt, rng, ncoll, nq):
             boxes.append(list(rng.choice(boxes)))            # duplicate
         asf = rng.random() < 0.5
         cf = float if asf else (lambda z: z)
+        vmap = None
+        if rng.random() < 0.3:
+            vmap = rng.choice([(0.1, 0.0), (1.0 / 3.0, 0.7), (0.01, -0.3)])          # decimal coordinates (see MAPS)
+            cf = lambda z, m=vmap: m[0] * z + m[1]  # noqa: E731
         scheme = rng.randrange(len(ID_SCHEMES))
         ids, back = id_maps(len(boxes), scheme)
-        evs.append({"ev": "build", "boxes": boxes, "asfloat": asf, "ids": scheme, "earlier": [dict(r) for r in RECENT]})
-        remember(boxes, 1.0 if asf else 1, 0, scheme)
+        evs.append({"ev": "build", "boxes": boxes, "asfloat": asf, "ids": scheme, "earlier": [dict(r) for r in RECENT], "vmap": list(vmap) if vmap else None})
+        remember(boxes, vmap[0] if vmap else (1.0 if asf else 1), vmap[1] if vmap else 0, scheme)
         try:
             with vlib.time_limit(10.0):
                 idx = rt.Index([(ids[i], tuple(cf(v) for v in bx)) for i, bx in enumerate(boxes)])
@@ -139,7 +146,7 @@ def validate(ctx, name, evs):
     tf = os.path.join(wd, "trace.ndjson")
     with open(tf, "w") as fh:
         for e in evs:
-            fh.write(json.dumps({k: v for k, v in e.items() if k != "earlier"}) + "\n")
+            fh.write(json.dumps({k: v for k, v in e.items() if k not in ("earlier", "vmap")}) + "\n")
     dump = os.path.join(wd, "states")
     vlib.tlc(wd, "RTreeTrace", "RTreeTrace.cfg", workers=1, dump=dump, env={"TRACE_FILE": tf})
     verdicts = {}
@@ -177,7 +184,8 @@ def run(ctx):
             ninst += 1
             if ctx.enough():
                 continue
-            for mi, (a, b) in enumerate(MAPS if (tier == "thorough" or ninst % 3 == 0) else MAPS[:1]):
+            maps = MAPS if tier == "thorough" else (MAPS[:1] + [MAPS[1 + (ninst // 3) % (len(MAPS) - 1)], MAPS[1 + (ninst // 3 + 2) % (len(MAPS) - 1)]] if ninst % 3 == 0 else MAPS[:1])
+            for mi, (a, b) in enumerate(maps):
                 bad, nq = run_instance(rt, boxes, hitsv, qn, a, b, stride, ninst + ctx.seed)
                 ctx.evaluations += nq
                 ctx.distinct.add((ci, ninst, mi))
@@ -208,7 +216,7 @@ def run(ctx):
             ctx.skipped += 1
         elif v != "ok":
             degenerate = any(bx[0] == bx[2] or bx[1] == bx[3] for bx in cur["boxes"])
-            ctx.violation(v, {"mode": "V", "boxes": cur["boxes"], "asfloat": cur["asfloat"], "ids": cur["ids"], "q": e["q"], "prior_q": cur_qs[-300:-1], "earlier_indexes": cur.get("earlier", [])}, None, e["res"],
+            ctx.violation(v, {"mode": "V", "boxes": cur["boxes"], "asfloat": cur["asfloat"], "ids": cur["ids"], "vmap": cur.get("vmap"), "q": e["q"], "prior_q": cur_qs[-300:-1], "earlier_indexes": cur.get("earlier", [])}, None, e["res"],
                           input_class="degenerate-box" if degenerate else None)
     ctx.distinct.update(("V", i) for i in range(ncoll))
     ctx.traces += ncoll
@@ -233,6 +241,8 @@ def replay(rec):
     if c["mode"] == "G":
         a, b = c["map"]
         cf = lambda x: a * x + b  # noqa: E731
+    elif c.get("vmap"):
+        cf = lambda z: c["vmap"][0] * z + c["vmap"][1]  # noqa: E731
     else:
         cf = float if c.get("asfloat") else (lambda z: z)
     keep = []
